@@ -4,6 +4,7 @@ import (
 	"bytes"
 	"encoding/binary"
 	"fmt"
+	"math"
 )
 
 // Instructions represents raw bytecode, which is composed of opcodes
@@ -44,6 +45,10 @@ func fmtInstruction(def *OpDefinition, operands []int) string {
 // changeOperand overwrites the first operand of a single-operand
 // instruction at opPosition with the given operand.
 // The width of the operand must be 2.
-func (ins Instructions) changeOperand(opPosition int, operand int) {
-	binary.BigEndian.PutUint16(ins[opPosition+1:], uint16(operand)) //nolint:gosec // we are just going to be lax about overflow errors at the moment
+func (ins Instructions) changeOperand(opPosition int, operand int) error {
+	if operand < 0 || operand > math.MaxUint16 {
+		return fmt.Errorf("%w: jump target %d", ErrOperandRange, operand)
+	}
+	binary.BigEndian.PutUint16(ins[opPosition+1:], uint16(operand))
+	return nil
 }
